@@ -28,6 +28,10 @@ pub struct Scn {
     /// invalid variant: "", "unknown-key-file", "unknown-key-cli", "nested-key", "bad-type-file", "bad-type-cli",
     /// "out-of-range", "bad-enum", "missing-config-file", "dir-config-file", "no-equals"
     pub invalid: String,
+    /// the file to format lies in a sub-directory of the working directory that has a
+    /// pasfmt.toml of its own (which must not be used: the search starts at the working directory)
+    #[serde(default)]
+    pub target_below: bool,
 }
 
 const KEYS: &[&str] = &["wrap_column", "begin_style", "format_multiline_strings", "use_tabs", "tab_width", "continuation_indents", "line_ending"];
@@ -135,11 +139,12 @@ impl Prop for C19Prop {
             scn.cwd_depth = t.below(4);
         }
         scn.cli_opts = gen_opts(t, false, 5);
+        scn.target_below = t.chance(1, 4);
         if stream == "invalid" {
             scn.invalid = (*t.pick(&[
                 "unknown-key-file", "unknown-key-cli", "nested-key", "bad-type-file", "bad-type-cli", "out-of-range",
                 "bad-enum", "missing-config-file", "dir-config-file", "no-equals", "negative", "bad-enum-file", "non-utf8-file", "syntax-error-file",
-                "case-key-cli", "case-key-file",
+                "case-key-cli", "case-key-file", "int-for-bool-cli",
             ]))
             .to_string();
         }
@@ -236,6 +241,7 @@ impl Prop for C19Prop {
                 ["-CWRAP_COLUMN=40", "-CTab_width=4", "-CUse_Tabs=true", "-CLine_ending=lf"][scn.cli_opts.len() % 4].into(),
             ),
             "bad-type-cli" => args.push("-Ctab_width=wide".into()),
+            "int-for-bool-cli" => args.push(["-Cuse_tabs=2", "-Cformat_multiline_strings=-1", "-Cuse_tabs=255", "-Cbegin_style=0"][scn.cli_opts.len() % 4].into()),
             "out-of-range" => args.push("-Ctab_width=256".into()),
             "negative" => args.push("-Cwrap_column=-1".into()),
             "bad-enum" => args.push("-Cbegin_style=sometimes".into()),
@@ -244,11 +250,16 @@ impl Prop for C19Prop {
             "no-equals" => args.push("-Cuse_tabs".into()),
             _ => {}
         }
-        let target_rel = format!("{cwd_rel}probe.pas");
+        let below = if scn.target_below { "sub/dir/" } else { "" };
+        if scn.target_below {
+            // a configuration next to the file that must be ignored
+            sc.write(&format!("{cwd_rel}sub/pasfmt.toml"), b"wrap_column = 33\nuse_tabs = true\ntab_width = 7\nbegin_style = \"always_wrap\"\nline_ending = \"crlf\"\n");
+        }
+        let target_rel = format!("{cwd_rel}{below}probe.pas");
         let target = sc.write(&target_rel, PROBE.as_bytes());
         let old = cli::age(&target);
         let mut run_args = args.clone();
-        run_args.push("probe.pas".into());
+        run_args.push(format!("{below}probe.pas"));
         let r = cli::run_pasfmt(&run_args, &sc.path(&cwd_rel), None, &[]);
         let now = std::fs::read(&target).unwrap_or_default();
         if !scn.invalid.is_empty() {
@@ -315,6 +326,7 @@ impl Prop for C19Prop {
         }
         ctx.class(&format!("depth:{}", scn.depth.map_or("none".to_string(), |d| d.to_string())));
         ctx.class_if(scn.explicit.is_some(), "explicit-config-file");
+        ctx.class_if(scn.target_below, "target-in-subdirectory-with-own-config");
         ctx.class_if(!scn.decoys.is_empty(), "has-decoy");
         let file_keys: Vec<&String> = scn.file_opts.iter().map(|x| &x.0).collect();
         let overridden = scn.cli_opts.iter().any(|(k, _)| file_keys.contains(&k));
